@@ -62,6 +62,51 @@ func checkC10(c *Ctx) {
 			}
 		}
 		ru1.Check(found, key, c.where(d.localState, d.localState), "appended to by a function reachable from LocalState", "no function reachable from LocalState appends to this field: that kind of state never travels in a snapshot")
+		// and on every call of LocalState: the call that leads to the append dominates every return of the producer (a
+		// dump made only when join is true leaves the periodic exchange without that kind of state)
+		if found {
+			uncond := false
+			appendsField := func(g *ssa.Function) bool {
+				for _, h := range c.funcsDeepStop(g, 3, func(x *ssa.Function) bool { return x.Package() != d.pkg }) {
+					for _, b := range h.Blocks {
+						for _, in := range b.Instrs {
+							if st, ok := in.(*ssa.Store); ok {
+								if fa, ok := st.Addr.(*ssa.FieldAddr); ok && isNamed(fa.X.Type(), "wasp/api", "StateBroadcastEvent") && fieldNameOf(fa.X.Type(), fa.Field) == field {
+									return true
+								}
+							}
+						}
+					}
+				}
+				return false
+			}
+			ls := d.localState
+			var anchors []*ssa.BasicBlock
+			for _, b := range ls.Blocks {
+				for _, in := range b.Instrs {
+					if st, ok := in.(*ssa.Store); ok {
+						if fa, ok := st.Addr.(*ssa.FieldAddr); ok && isNamed(fa.X.Type(), "wasp/api", "StateBroadcastEvent") && fieldNameOf(fa.X.Type(), fa.Field) == field {
+							anchors = append(anchors, b)
+						}
+					}
+					if cl := core.CallOf(in); cl != nil && cl.Static != nil && cl.Static.Package() == d.pkg && appendsField(cl.Static) {
+						anchors = append(anchors, b)
+					}
+				}
+			}
+			for _, ab := range anchors {
+				all := true
+				for _, rb := range ls.Blocks {
+					if _, isRet := rb.Instrs[len(rb.Instrs)-1].(*ssa.Return); isRet && !ab.Dominates(rb) {
+						all = false
+					}
+				}
+				if all {
+					uncond = true
+				}
+			}
+			ru1.Check(uncond, "StateBroadcastEvent."+field+" filled on every call of the snapshot producer", c.where(ls, ls), "the dump dominates every return of LocalState", "the dump of this field is conditional in "+c.fname(ls)+": some snapshots (for instance the periodic exchange, join == false) do not carry this kind of state, so a node that missed the gossip never catches up")
+		}
 	}
 	// returns the marshalling of the payload it filled
 	okRet := false
